@@ -882,10 +882,16 @@ def _strip_comments(line: bytes) -> bytes:
     comment_bytes = {ord(b"#"), ord(b";")}
     quote = ord(b'"')
     string_open = False
+    escaped = False
     # Normalize line to bytearray for simple 2/3 compatibility
     for i, character in enumerate(bytearray(line)):
+        # A backslash escapes the next character (e.g. \" in a subsection)
+        if escaped:
+            escaped = False
+        elif character == ord(b"\\"):
+            escaped = True
         # Comment characters outside balanced quotes denote comment start
-        if character == quote:
+        elif character == quote:
             string_open = not string_open
         elif not string_open and character in comment_bytes:
             return line[:i]
